@@ -39,6 +39,7 @@ import (
 	"crypto/sha256"
 	"fmt"
 	"math/bits"
+	"runtime/debug"
 	"sort"
 	"strings"
 	"sync"
@@ -174,7 +175,11 @@ func c17Compile(sc c17Scenario) *c17Compiled {
 	for i := 0; i < sc.k; i++ {
 		c.obs = append(c.obs, c17ObsT{ext: i, cls: "ext", name: c17Exts[i].name})
 	}
-	for _, cls := range c17IneligibleClasses {
+	classes := sc.classes
+	if classes == nil {
+		classes = c17IneligibleClasses
+	}
+	for _, cls := range classes {
 		c.obs = append(c.obs, c17ObsT{ext: -1, cls: cls, name: cls})
 	}
 	for _, cn := range c.conns {
@@ -759,6 +764,8 @@ func TestVerifC17(t *testing.T) {
 	stats := &c17Stats{outcomes: map[string]int64{}, distinct: map[[16]byte]struct{}{}, notes: map[string]*c17Info{}}
 	saved := ActivationThresh
 	defer func() { ActivationThresh = saved }()
+	// every transition builds a fresh manager and throws it away: the live heap is tiny, collect less often
+	defer debug.SetGCPercent(debug.SetGCPercent(800))
 
 	var scDesc []string
 	for _, sc := range c17Scenarios(thorough) {
@@ -767,8 +774,21 @@ func TestVerifC17(t *testing.T) {
 		for _, cn := range c.conns {
 			cs = append(cs, fmt.Sprintf("%s=%s:%d->%s(%s,listen=%v)", cn.def.name, cn.def.rip, cn.def.rport, cn.local.name, cn.group, cn.atListen))
 		}
-		scDesc = append(scDesc, fmt.Sprintf("%s: listen=%v k=%d conns=[%s] tracker-states=%d ops/state<=%d", sc.name, sc.listen, sc.k, strings.Join(cs, " "), c.modelSpace, len(c.opsAll)))
-		for _, th := range threshs {
+		inel := "all"
+		if sc.classes != nil {
+			inel = fmt.Sprint(sc.classes)
+		}
+		scDesc = append(scDesc, fmt.Sprintf("%s: listen=%v k=%d ineligible-classes=%s conns=[%s] tracker-states=%d ops/state<=%d", sc.name, sc.listen, sc.k, inel, strings.Join(cs, " "), c.modelSpace, len(c.opsAll))+func() string {
+			if sc.threshs != nil {
+				return fmt.Sprintf(" ActivationThresh=%v only", sc.threshs)
+			}
+			return ""
+		}())
+		scThreshs := threshs
+		if sc.threshs != nil {
+			scThreshs = sc.threshs
+		}
+		for _, th := range scThreshs {
 			ActivationThresh = th // package variable: set between searches only, the workers of one search just read it
 			s := &c17Search{c: c, name: fmt.Sprintf("%s T=%d", sc.name, th), stats: stats}
 			before := stats.nonEmpty
